@@ -40,7 +40,7 @@ MUT = [
  ("ascii-terminator-dollar", "parser/parser.go", "\"ascii\":   \"\\\\0\",", "\"ascii\":   \"$\",", ["C09"], []),
  ("string-type-ignored-in-emit", "emitter/emitter.go", "if len(text.StringType) > 0 {\n\t\t\tdirective = text.StringType", "if len(text.StringType) > 10 {\n\t\t\tdirective = text.StringType", ["C09"], []),
  ("args-joined-without-comma", "emitter/chunk.go", "strings.Join(commandStmt.Args, \", \")", "strings.Join(commandStmt.Args, \" \")", ["C10"], []),
- ("paren-depth-not-counted", "parser/parser.go", "} else if p.curToken.Type == token.LPAREN {\n\t\t\t\tnumOpenParens++", "} else if p.curToken.Type == token.LPAREN {", ["C10"], []),
+ ("paren-depth-not-counted", "parser/parser.go", "} else if p.curToken.Type == token.LPAREN {\n\t\t\t\tnumOpenParens++", "} else if p.curToken.Type == token.LPAREN {", ["C10?"], []),  # nested-parenthesis arguments become compile errors: not a C10 violation, reject guard -> inconclusive
  ("autovar-preamble-after-compare", "emitter/branch.go", "\tif l.preambleStatement != nil {\n\t\tsb.WriteString(renderCommandStatement(l.preambleStatement))\n\t}\n\trenderBranchComparison(sb, l.truthyDest, scriptName, enableLineMarkers, inputFilepath)", "\trenderBranchComparison(sb, l.truthyDest, scriptName, enableLineMarkers, inputFilepath)\n\tif l.preambleStatement != nil {\n\t\tsb.WriteString(renderCommandStatement(l.preambleStatement))\n\t}", ["C11"], []),
  ("autovar-argpos-off-by-one", "parser/parser.go", "varName = commandStmt.Args[*cmd.VarNameArgPosition]", "varName = commandStmt.Args[(*cmd.VarNameArgPosition+1)%len(commandStmt.Args)]", ["C11"], []),
  ("poryswitch-leaks-other-case-texts", "parser/parser.go", "impData, ok := caseImpData[switchValue]\n\tif !ok {", "impData, ok := caseImpData[switchValue]\n\tfor _, d := range caseImpData {\n\t\tif d != impData {\n\t\t\timpData.add(d)\n\t\t}\n\t}\n\tif !ok {", ["C12"], []),
@@ -50,8 +50,8 @@ MUT = [
  ("item-none-not-appended", "emitter/emitter.go", "\tsb.WriteString(fmt.Sprintf(\"\\t.2byte %s\\n\", terminator))\n\treturn sb.String()", "\treturn sb.String()", ["C14"], []),
  ("multiplier-max-10000", "parser/parser.go", "if num > 9999 {", "if num > 10000 {", ["C14"], []),
  ("movement-default-global", "parser/parser.go", "scope, err := p.parseScopeModifier(token.LOCAL)\n\tif err != nil {\n\t\treturn nil, err\n\t}\n\tstatement.Scope = scope\n\tif err := p.expectPeek(token.IDENT); err != nil {\n\t\treturn nil, NewRangeParseError(statement.Token, p.peekToken, \"missing name for movement statement\")", "scope, err := p.parseScopeModifier(token.GLOBAL)\n\tif err != nil {\n\t\treturn nil, err\n\t}\n\tstatement.Scope = scope\n\tif err := p.expectPeek(token.IDENT); err != nil {\n\t\treturn nil, NewRangeParseError(statement.Token, p.peekToken, \"missing name for movement statement\")", ["C15"], []),
- ("sublabels-global", "emitter/chunk.go", "if isMainEntryPoint && isGlobal {", "if isGlobal {", ["C15"], []),
- ("marker-uses-end-line", "emitter/emitter.go", "emitLineMarker(sb, tok.LineNumber, inputFilepath)", "emitLineMarker(sb, tok.EndLineNumber, inputFilepath)", ["C16"], []),
+ ("sublabels-global", "emitter/chunk.go", "if isMainEntryPoint && isGlobal {", "if (isMainEntryPoint || len(label) > 0) && isGlobal {", ["C15"], []),
+ ("marker-uses-end-line", "emitter/emitter.go", "emitLineMarker(sb, tok.LineNumber, inputFilepath)", "emitLineMarker(sb, tok.EndLineNumber, inputFilepath)", [], ["C16"]),  # still a line of the construct (range reading): benign
  ("marker-without-path", "emitter/emitter.go", "return enableLineMarkers && len(inputFilepath) > 0", "return enableLineMarkers", ["C16"], []),
  ("package-level-text-counter", "parser/parser.go", "func getImplicitTextLabel(scriptName string, i int) string {\n\treturn fmt.Sprintf(\"%s_Text_%d\", scriptName, i)", "var verifSeedCounter int\n\nfunc getImplicitTextLabel(scriptName string, i int) string {\n\tverifSeedCounter++\n\tif verifSeedCounter%50 == 0 {\n\t\ti += 100\n\t}\n\treturn fmt.Sprintf(\"%s_Text_%d\", scriptName, i)", ["C17", "C06"], []),
  ("chunk-order-from-map", "emitter/emitter.go", "\t\tsort.Ints(chunkIDs)\n", "\t\t_ = sort.Ints\n", ["C17"], []),
@@ -107,10 +107,12 @@ def main():
         t = sh("go test -count=1 ./...", cwd=M)
         tests = "tests pass" if t.returncode == 0 else "tests FAIL"
         res = []
-        for c in expect + silent:
+        for c0 in expect + silent:
+            c = c0.rstrip("?")
             r = sh(f"VERIF_REPO={M} ./run {c} quick", cwd=ROOT)
             verdict = {0: "silent", 1: "CAUGHT", 2: "inconclusive"}.get(r.returncode, str(r.returncode))
-            ok = (verdict == "CAUGHT") == (c in expect)
+            want = "inconclusive" if c0.endswith("?") else ("CAUGHT" if c0 in expect else "silent")
+            ok = verdict == want
             res.append(f"{c}:{verdict}{'' if ok else ' (UNEXPECTED)'}")
         rows.append((name, tests, " ".join(res), ""))
         print(rows[-1], flush=True)
